@@ -232,14 +232,17 @@ def build_facts(config="default", repo=None, keep=False, verbose=False):
     return out
 
 
-def _prune_cache(keep_hash, maxdirs=6):
+def _prune_cache(keep_hash, maxdirs=6, min_age_s=1800):
+    """keep the newest entries; never remove one that was touched in the last half hour (a check running in parallel on
+    another tree may be reading it)"""
     try:
         ds = [os.path.join(CACHE, d) for d in os.listdir(CACHE)]
         ds = [d for d in ds if os.path.isdir(d)]
         ds.sort(key=lambda d: os.path.getmtime(d))
+        now = time.time()
         while len(ds) > maxdirs:
             d = ds.pop(0)
-            if os.path.basename(d) != keep_hash:
+            if os.path.basename(d) != keep_hash and now - os.path.getmtime(d) > min_age_s:
                 shutil.rmtree(d, ignore_errors=True)
     except OSError:
         pass
@@ -247,8 +250,17 @@ def _prune_cache(keep_hash, maxdirs=6):
 
 def load_facts(config="default", repo=None):
     p = build_facts(config, repo)
-    with open(p) as fh:
-        facts = json.load(fh)
+    try:
+        os.utime(os.path.dirname(p))
+    except OSError:
+        pass
+    try:
+        with open(p) as fh:
+            facts = json.load(fh)
+    except (OSError, ValueError):
+        p = build_facts(config, repo)   # removed or half-written by a parallel run: build again
+        with open(p) as fh:
+            facts = json.load(fh)
     with open(p + ".meta") as fh:
         facts["meta"] = json.load(fh)
     with open(p + ".macros") as fh:
